@@ -30,7 +30,8 @@ CHECKS = {'C01': {'level': 'exploration',
                  'inside a delete sweep and a swept offset was re-used afterwards | the same test (round 8) also runs transactions of 1..8 stores '
                  'and merges over several columns and rows - through Row setters or through txn.Int(name) accessors at the cursor - with a '
                  'DropColumn of one of the written columns landing at a drawn point INSIDE the body: what was queued for the dropped column vanishes '
-                 'with it, every other write of the transaction must arrive',
+                 'with it, every other write of the transaction must arrive | since round 8 generated transactions may end by obtaining typed column '
+                 'accessors that they only read (txn.Int64(name).Get(): an update buffer that stays empty)',
          'assumptions': ["values are in the documented domain (strings <= 65535 bytes; SetAny/SetMany values have the column's Go type)",
                          'writes target rows that are live when issued (writes to dead offsets are outside the property)',
                          'histories are bounded: <= 3 blocks (offsets < 49152), ~30 actions, <= 12 steps per transaction'],
@@ -76,7 +77,9 @@ CHECKS = {'C01': {'level': 'exploration',
                  'rows may fail too (the call reports the error, the stores stay buffered and commit); the harness record codec has an optional '
                  'field that its decoder leaves alone when absent (like encoding/json with omitted fields); string columns may use a "set or append" '
                  'merge that returns a sub-slice of its delta | since round 7: DropColumn of a value column and its later re-creation under the same '
-                 'name (nothing of the former values may show), dropped index names that come back on another column / with another rule',
+                 'name (nothing of the former values may show), dropped index names that come back on another column / with another rule | since '
+                 'round 8 generated transactions may end by obtaining typed column accessors that they only read (txn.Int64(name).Get(): an update '
+                 'buffer that stays empty)',
          'assumptions': ['in-flight observation happens from the same goroutine between two steps of the body (no latch is held there)',
                          'generator exclusions driven by known findings are counted in coverage.excluded_by_known_finding'],
          'tests': [{'run': '^TestC02$',
@@ -112,7 +115,8 @@ CHECKS = {'C01': {'level': 'exploration',
                  'use a "set or append" merge that returns a sub-slice of its delta | since round 7: a dropped index name may come back on another '
                  'column / with another rule | since round 8: DropColumn of a value column that carries no live index (an index dropped through '
                  'DropColumn(indexName) is still attached to it inside the library, and its name may be in use again on another column); the indexes '
-                 'are checked right afterwards',
+                 'are checked right afterwards | since round 8 generated transactions may end by obtaining typed column accessors that they only '
+                 'read (txn.Int64(name).Get(): an update buffer that stays empty)',
          'assumptions': ["index predicates decode the value with the column's own width (Reader.Int on an int16 column is zero-extended by design)",
                          'quiescent checks only (no transaction is committing while an index is read)'],
          'tests': [{'run': '^TestC03$',
@@ -212,7 +216,13 @@ CHECKS = {'C01': {'level': 'exploration',
                  'never released); callbacks of operations on EXISTING rows may fail too (the call reports the error, the stores stay buffered and '
                  'commit); the harness record codec has an optional field that its decoder leaves alone when absent (like encoding/json with omitted '
                  'fields); string columns may use a "set or append" merge that returns a sub-slice of its delta | since round 7: a dropped index '
-                 'name may come back on another column / with another rule',
+                 'name may come back on another column / with another rule | since round 8: action txnDuringSnapshot - the primary writes a snapshot '
+                 'while 1..2 generated transactions commit (run by the hooks at a drawn point of the snapshot): those commits go to the snapshot '
+                 'recorder AND must still reach the stream | generated transactions may end by obtaining typed column accessors that they only read '
+                 '(an empty update buffer at the end of the transaction) | TestC01DropInSweep run for C06: the histories with a DropColumn inside a '
+                 'delete sweep or inside a transaction body (see C01) on a primary with a logger; a follower that starts with the initial columns '
+                 'and repeats the emitted commits and the DDL steps in the order in which they happened must equal the model (rows, every live '
+                 'column, Count)',
          'assumptions': ['the replica has the same schema (columns created at the same history points) and the same index definitions',
                          'comparison happens when the primary is quiescent'],
          'tests': [{'run': '^TestC06$',
@@ -237,7 +247,12 @@ CHECKS = {'C01': {'level': 'exploration',
                     'shards': {'quick': 1, 'thorough': 3},
                     'env': {'VERIF_PROP': 'C06'},
                     'timeout': {'quick': 900, 'thorough': 3400},
-                    'shrinktime': '5s'}]},
+                    'shrinktime': '5s'},
+                   {'run': '^TestC01DropInSweep$',
+                    'checks': {'quick': 400, 'thorough': 20000},
+                    'shards': {'quick': 1, 'thorough': 8},
+                    'timeout': {'quick': 900, 'thorough': 3400},
+                    'env': {'GOMAXPROCS': 1}}]},
  'C07': {'level': 'exploration',
          'rule': 'model-based stateful histories over all column kinds (enum, bool, record, key, expire, late columns, custom merges), all Capacity '
                  'options, 0..3 blocks with patterned bulk deletes and offset reuse; action snapshotRestore (up to 3 per history): Snapshot to a '
@@ -257,7 +272,8 @@ CHECKS = {'C01': {'level': 'exploration',
                  'kinds; the padding is sized after measuring the uncompressed state so that a multiple of 1 MiB (the block size of the s2 stream, '
                  'where the decompressor ends a Read) falls at a drawn byte inside the region of the small columns: every field of the format (name, '
                  'int32, chunk header, payload) gets split over two reads in some case; oracle = the generated values themselves (Restore returns '
-                 'nil, Count, every cell); non-trivial = the mark fell inside that region',
+                 'nil, Count, every cell); non-trivial = the mark fell inside that region | since round 8 generated transactions may end by '
+                 'obtaining typed column accessors that they only read (txn.Int64(name).Get(): an update buffer that stays empty)',
          'assumptions': ['the restoring collection has the same columns (names, kinds, merge functions) as the original',
                          'vacuum is parked (24h interval), so the expire column is an ordinary int64 column here'],
          'tests': [{'run': '^TestC07$',
@@ -412,7 +428,8 @@ CHECKS = {'C01': {'level': 'exploration',
                  'dropped selects (txn.With, Row.Bool, txn.Ascend) must be a member frozen at the drop with an unchanged generation - a row inserted '
                  'after the drop is never selected, also when it re-uses the offset of a member; indexes on live columns select exactly the rows '
                  'whose own value satisfies the rule; non-trivial = an offset selected by an orphaned index at the drop was deleted, re-used and '
-                 'looked at through that index',
+                 'looked at through that index | since round 8 generated transactions may end by obtaining typed column accessors that they only '
+                 'read (txn.Int64(name).Get(): an update buffer that stays empty)',
          'assumptions': ['free-parallel runs are not bit-reproducible: the replay re-runs the generated program (schedule left to the Go runtime)'],
          'tests': [{'run': '^TestC11$',
                     'checks': {'quick': 200, 'thorough': 2000},
@@ -469,7 +486,8 @@ CHECKS = {'C01': {'level': 'exploration',
                  'with omitted fields); string columns may use a "set or append" merge that returns a sub-slice of its delta | since round 7: the '
                  'callback of an InsertKey may re-key the new row (SetKey) before InsertKey queues its own key - the row ends up with the InsertKey '
                  'key, the other one must not resolve; a second key column is attempted (refused) and whatever the attempt registered is dropped '
-                 'again',
+                 'again | since round 8 generated transactions may end by obtaining typed column accessors that they only read '
+                 '(txn.Int64(name).Get(): an update buffer that stays empty)',
          'assumptions': ['existence is judged against the committed table when the operation is issued (documented mechanism)',
                          'the key column is written only through InsertKey/UpsertKey/SetKey (SetAny on the key column bypasses the duplicate test '
                          'and is outside the property)'],
@@ -588,7 +606,8 @@ CHECKS = {'C01': {'level': 'exploration',
                  'of its own must reproduce the primary (what the cleanup commits is emitted), and the ID invariants hold over the whole stream | '
                  'since round 7: a transaction whose only write goes to a column that is dropped before it commits emits nothing | '
                  'TestC15ManyCommits: 2..3 blocks opened by ONE bulk transaction, then 600..3000 single-row transactions, most of them into one '
-                 'block: all IDs distinct, per block increasing, exactly one commit each',
+                 'block: all IDs distinct, per block increasing, exactly one commit each | since round 8 generated transactions may end by obtaining '
+                 'typed column accessors that they only read (txn.Int64(name).Get(): an update buffer that stays empty)',
          'assumptions': ['record order at the logger is apply order (Append is called under the block latch)'],
          'tests': [{'run': '^TestC15$',
                     'checks': {'quick': 250, 'thorough': 2500},
@@ -638,7 +657,8 @@ CHECKS = {'C01': {'level': 'exploration',
                  'the process with a WATCHDOG-VIOLATION line: with one goroutine at work that is a lock which is never released); callbacks of '
                  'operations on EXISTING rows may fail too (the call reports the error, the stores stay buffered and commit); the harness record '
                  'codec has an optional field that its decoder leaves alone when absent (like encoding/json with omitted fields); string columns may '
-                 'use a "set or append" merge that returns a sub-slice of its delta',
+                 'use a "set or append" merge that returns a sub-slice of its delta | since round 8 generated transactions may end by obtaining '
+                 'typed column accessors that they only read (txn.Int64(name).Get(): an update buffer that stays empty)',
          'assumptions': ['quiescent checks (no writer runs during Ascend)'],
          'tests': [{'run': '^TestC16$',
                     'checks': {'quick': 300, 'thorough': 3000},
@@ -748,7 +768,9 @@ CHECKS = {'C01': {'level': 'exploration',
                  'commit); the harness record codec has an optional field that its decoder leaves alone when absent (like encoding/json with omitted '
                  'fields); string columns may use a "set or append" merge that returns a sub-slice of its delta | TestC19ParallelStores: one '
                  'trigger, 2..4 writers that commit unique stores, merges and deletions into DIFFERENT blocks at the same moment; at quiescence '
-                 'every committed store/deletion was reported exactly once with the stored value and nothing else was reported',
+                 'every committed store/deletion was reported exactly once with the stored value and nothing else was reported | since round 8 '
+                 'generated transactions may end by obtaining typed column accessors that they only read (txn.Int64(name).Get(): an update buffer '
+                 'that stays empty)',
          'assumptions': ['bool columns are not watched (a false store is encoded as the delete op-code by design)',
                          'stores into a row that the same transaction also deletes are not judged (only its single delete call is)'],
          'tests': [{'run': '^TestC19$',
